@@ -69,6 +69,14 @@ def cases(draw):
     placed = []
     if draw(st.booleans()):
         placed = draw(S.decorate(prog, disable=False, namespace=True))
+    # two types in different namespaces share their C++ name (a quarter of the programs)
+    free = [it for _, it in ir.all_items(prog) if not any("namespace" in a or "rename" in a for a in it["attrs"])]
+    if len(free) >= 2 and draw(st.integers(0, 3)) == 0:
+        two = draw(st.permutations(free))[:2]
+        for it, ns in zip(two, draw(st.sampled_from([("ns1", "ns2"), ("ns1", "ns1::inner"), ("outer::mid::deep", "ns2")]))):
+            it["attrs"].append('#[diplomat::attr(auto, namespace = "%s")]' % ns)
+            it["attrs"].append('#[diplomat::attr(cpp, rename = "DvSharedName")]')
+        placed = list(placed) + ["same-cpp-name-in-two-namespaces"]
     order_seed = draw(st.integers(0, 2 ** 30))
     return prog, placed, order_seed
 
